@@ -221,7 +221,7 @@ func c02Lengths(c *Ctx) {
 }
 
 func c02Lists(c *Ctx) {
-	n := c.N(1500, 40000)
+	n := c.N(4000, 200000)
 	for i := 0; i < n; i++ {
 		c.Case(int64(i), func(k *K) {
 			r := k.Rand()
@@ -239,7 +239,7 @@ func c02Lists(c *Ctx) {
 }
 
 func c02Corrupt(c *Ctx) {
-	n := c.N(2000, 40000)
+	n := c.N(5000, 200000)
 	for ci := 0; ci < n; ci++ {
 		c.Case(int64(ci), func(k *K) {
 			r := k.Rand()
